@@ -730,6 +730,25 @@ class SP(Robot):
                 bottom_plate_pos = old_bottom_plate_transform, protect = protect)
         return inverse_jacobian
 
+    def jacobianBody(self, top_plate_pos : tm = None,
+            bottom_plate_pos : tm = None, protect : bool = True) -> 'np.ndarray[float]':
+        """
+        Calculate Body (top plate frame) Jacobian. Optionally use top and bottom transforms.
+
+        The body frame is that of the top plate pose the Jacobian is evaluated at:
+        top_plate_pos when it is supplied, the current top plate pose otherwise.
+        Args:
+            top_plate_pos (tm): top plate transformation in space frame
+            bottom_plate_pos (tm): bottom plate transformation in space frame
+            protect (Bool): Boolean to bypass error detection and correction. Bypass if True
+
+        Returns:
+            ndarray(Float): Body Jacobian for the given (or current) configuration
+        """
+        bottom_plate_pos, top_plate_pos = self._bottomTopCheck(bottom_plate_pos, top_plate_pos)
+        return top_plate_pos.inv().adjoint() @ self.jacobian(
+            top_plate_pos = top_plate_pos, bottom_plate_pos = bottom_plate_pos, protect = protect)
+
     """ 
     Force Calculations
     """
